@@ -431,6 +431,14 @@ func parseCtl(data string, memoizer plugintypes.Memoizer) (ctlFunctionType, stri
 		if len(rxPattern) == 0 {
 			return ctlUnknown, "", 0, "", nil, errors.New("empty regex pattern in ctl collection key")
 		}
+		switch collection {
+		case variables.Args, variables.ArgsNames, variables.ArgsGet, variables.ArgsPost,
+			variables.ArgsGetNames, variables.ArgsPostNames:
+		default:
+			// the keys of every other collection are not case sensitive: like a rule's own
+			// !VARIABLE:/regex/ exclusion, the pattern is folded to lower case
+			rxPattern = strings.ToLower(rxPattern)
+		}
 		var err error
 		if memoizer != nil {
 			re, compileErr := memoizer.Do("regexp:"+rxPattern, func() (any, error) { return regexp.Compile(rxPattern) })
